@@ -13,6 +13,7 @@ import Driver.OpsBind
 import Driver.OpsAgg
 import Driver.OpsConstruct
 import Driver.OpsRead
+import Driver.OpsConvert
 
 open Lean DI DI.Codec
 
@@ -42,6 +43,9 @@ def dispatch (op : String) (a : Json) : Except String Json :=
   | some r => r
   | none =>
   match DI.Ops.readOp op a with
+  | some r => r
+  | none =>
+  match DI.Ops.convertOp op a with
   | some r => r
   | none => .error s!"unknown op {op}"
 
